@@ -165,8 +165,8 @@ def all_cases():
     A(Case("GatedLinearUnit/D=1", lambda: NL.GatedLinearUnit(), (1,), ctx_shape=(1,)))
     A(Case("GatedLinearUnit/D=2,ctx=2", lambda: NL.GatedLinearUnit(), (2,), ctx_shape=(2,)))
     A(Case("GatedLinearUnit/D=2,ctx=1", lambda: NL.GatedLinearUnit(), (2,), ctx_shape=(1,)))
-    A(Case("CauchyCDF/2d", lambda: NL.CauchyCDF(), (2,)))
-    A(Case("CauchyCDFInverse/2d", lambda: NL.CauchyCDFInverse(), (1,), domain=_in_box(0, 1)))
+    A(Case("CauchyCDF/2d", lambda: NL.CauchyCDF(), (2,), rt_box={("fi", "start"): (0, 1, True)}, note="round trips on the open interval (tan is unbounded at the end-points)"))
+    A(Case("CauchyCDFInverse/2d", lambda: NL.CauchyCDFInverse(), (1,), domain=_in_box(0, 1, strict=True), rt_box={("if", "start"): (0, 1, True)}))
     # ---- element-wise CDF transforms (shared parameters) ----
     for K in (1, 2):
         for tails in (None, "linear"):
